@@ -564,7 +564,17 @@ func (e *Env) index(v, i Val) Val {
 	if strings.HasPrefix(v.Sort, "(Array ") {
 		// spec-level array
 		inner := strings.TrimSuffix(strings.TrimPrefix(v.Sort, "(Array Int "), ")")
-		return specVal(sel(v.T, i.T), inner)
+		out := specVal(sel(v.T, i.T), inner)
+		// give datatype-valued elements their Go type back so that fields can be selected
+		for key, si := range u.sorts.structs {
+			if si.sort == inner {
+				_ = key
+				if si.gotype != nil {
+					out.Typ = si.gotype
+				}
+			}
+		}
+		return out
 	}
 	e.fail("indexing a %s", v.Sort)
 	return Val{}
@@ -829,6 +839,11 @@ func (e *Env) evalCall(n ECall) Val {
 			e.fail("iface() of %s", v.Sort)
 		}
 		return specVal(fmt.Sprintf("(ite (= %s null) (mkIface %d null) (mkIface %d %s))", v.T, u.P.tagOf(v.Typ), u.P.tagOf(v.Typ), v.T), SIface)
+	case "upd":
+		// upd(a, i, v): spec-level array update
+		argn(3)
+		a, i, v := e.eval(n.Args[0]), e.eval(n.Args[1]), e.eval(n.Args[2])
+		return Val{T: store(a.T, i.T, v.T), Sort: a.Sort}
 	case "toreal":
 		argn(1)
 		return specVal("(to_real "+e.eval(n.Args[0]).T+")", SReal)
@@ -866,8 +881,9 @@ func (e *Env) evalCall(n ECall) Val {
 			e.fail("ghost map %s: key of sort %s, want %s", g.Name, k.Sort, g.Struct)
 		}
 		comp := "GM_" + g.Name
-		u.setCompSort(comp, "(Array "+g.Struct+" "+g.Sort+")")
-		return specVal(sel(u.get(e.st, comp), kt), g.Sort)
+		gs := u.ghostSort(g.Sort)
+		u.setCompSort(comp, "(Array "+g.Struct+" "+gs+")")
+		return specVal(sel(u.get(e.st, comp), kt), gs)
 	}
 	if n.Fun == "alls" || n.Fun == "alli" {
 		// alls(h, p, ..., body): universally quantified string (alli: integer) variables
@@ -1012,8 +1028,9 @@ func (e *Env) addrOf(x Expr) Val {
 				kt = "(val " + k.T + ")"
 			}
 			comp := "GM_" + g.Name
-			u.setCompSort(comp, "(Array "+g.Struct+" "+g.Sort+")")
-			return Val{T: kt, Sort: "ghostaddr:" + comp + ":" + g.Sort}
+			gs := u.ghostSort(g.Sort)
+			u.setCompSort(comp, "(Array "+g.Struct+" "+gs+")")
+			return Val{T: kt, Sort: "ghostaddr:" + comp + ":" + gs}
 		}
 	case EIdent:
 		// global variable
